@@ -115,6 +115,7 @@ func init() {
 		{"C13", "oneshift", props.OneShiftBounded("circuit", "types")},
 		{"C17", "sharedtable", props.MemoSyncMaps("circuit", "ot", "p2p", "gmw", "compiler/ssa", "compiler/circuits", "compiler/mpa", "compiler/ast", "compiler")},
 		{"C08", "searchorder", props.SearchOrderConfigured},
+		{"C08", "sharedinfo", props.SharedInfoImmutable},
 		{"C08", "sharedtable", props.MemoSyncMaps("compiler/ssa", "compiler/circuits", "compiler/mpa", "compiler/ast", "compiler", "circuit")},
 		{"C16", "garble", props.C01},
 		{"C18", "garble", props.C01},
